@@ -14,7 +14,6 @@ import (
 	"github.com/agglayer/aggkit/aggsender/flows"
 	aggsendertypes "github.com/agglayer/aggkit/aggsender/types"
 	"github.com/agglayer/aggkit/bridgesync"
-	"github.com/agglayer/aggkit/log"
 	"github.com/ethereum/go-ethereum/crypto"
 )
 
@@ -71,7 +70,7 @@ func giExec(r *Run, line string) {
 		x := bigOf(ws[1])
 		var parts [5][]byte
 		obs := guard(func() string {
-			f := flows.NewBaseFlow(log.WithFields("m", "verif"), nil, nil, nil, nil, flows.NewBaseFlowConfigDefault())
+			f := flows.NewBaseFlow(lg(), nil, nil, nil, nil, flows.NewBaseFlowConfigDefault())
 			ibe, err := f.ConvertClaimToImportedBridgeExit(bridgesync.Claim{GlobalIndex: x, Amount: big.NewInt(0)})
 			if err != nil {
 				return "cons err"
